@@ -30,7 +30,10 @@ def own_obligations(tier):
                      encodes=["sched_run", "ABTI_ythread_schedule", "ABTI_sched_has_to_stop", "ABTI_sched_has_unit", "ABTI_sched_finish", "ABT_thread_resume", "ABTI_ythread_resume_and_push", "ABTI_thread_terminate"],
                      bounds="<=5 scheduler iterations (cut by assumption), <=2 units, event_freq 1", symbolic="when the blocked ULT is resumed (before each pool query / event check), when the join request becomes visible", timeout=400))
     o.append(Obl("main_sched_func", "C01/mainsched.c", "real thread_main_sched_func around ANY scheduler run function (stub: runs some queued units, may return at any time with units still queued -- as basic_wait and user schedulers do --, join/cancel requests arrive at solver-chosen calls): the stream's scheduler ULT finishes only on cancel, or on a finish request with no unit queued and none blocked",
-                 unwind=6, cut_loops=["thread_main_sched_func@while \\(1\\):6"], object_bits=11, backend="cadical", no_std=["--pointer-overflow-check"],
+                 unwind=6, cut_loops=["thread_main_sched_func@while \\(1\\):6"], object_bits=11, restrict_fp=[("thread_main_sched_func.function_pointer_call.1", ["run_stub"])], backend="cadical", no_std=["--pointer-overflow-check"],
+                 encodes=["thread_main_sched_func"], bounds="<=3 queued + 1 blocked unit, <=6 calls of the run function (cut by assumption)", symbolic="units run per call, when the run function returns, when join/cancel arrive"))
+    o.append(Obl("main_sched_func_replace", "C01/mainsched.c", "real thread_main_sched_func, scheduler REPLACEMENT (the old scheduler's run function returns with REQ_REPLACE): the new scheduler is installed (MAIN, owning the scheduler ULT), the old one released, and only then the waiting caller of ABT_xstream_set_main_sched resumed, exactly once; besides: around ANY scheduler run function (stub: runs some queued units, may return at any time with units still queued -- as basic_wait and user schedulers do --, join/cancel requests arrive at solver-chosen calls): the stream's scheduler ULT finishes only on cancel, or on a finish request with no unit queued and none blocked",
+                 defs=["REPLACE"], unwind=6, cut_loops=["thread_main_sched_func@while \\(1\\):6"], object_bits=11, restrict_fp=[("thread_main_sched_func.function_pointer_call.1", ["run_stub"])], backend="cadical", no_std=["--pointer-overflow-check"],
                  encodes=["thread_main_sched_func"], bounds="<=3 queued + 1 blocked unit, <=6 calls of the run function (cut by assumption)", symbolic="units run per call, when the run function returns, when join/cancel arrive"))
     return o
 
@@ -43,6 +46,8 @@ def obligations(tier):
     o += [x for x in C06.obligations(tier) if x.name.startswith("counter_yield") or x.name.startswith("stop_")]
     C07 = importlib.import_module("props.C07")
     o += [x for x in C07.obligations(tier) if x.name in ("seq_fifo_shared_push", "seq_fifo_shared_pop", "seq_randws_shared_pop", "seq_fifo_wait_pop", "seq_fifo_shared_remove", "seq_randws_shared_remove", "seq_fifo_wait_remove")]
+    C03 = importlib.import_module("props.C03")
+    o += [x for x in C03.obligations("quick") if x.name in ("join_many_running_holes", "free_many_holes")]   # units listed after a NULL hole are not skipped: they run to completion before join_many returns
     return o
 
 MANIFEST_ENTRY = {
